@@ -112,7 +112,11 @@ def delta_line(t1, t2, base, base2, bidir, always, zip_, thr):
 
 
 def py_eq_t(a, b):
-    """Python == plus the same container type at every position (the equality C01/C08 ask for)"""
+    """Python == plus the same container type at every position (the equality C01/C08 ask for); numpy arrays: same dtype, shape and content"""
+    if type(a).__module__ == 'numpy' or type(b).__module__ == 'numpy':
+        import numpy as np
+        if isinstance(a, np.ndarray) or isinstance(b, np.ndarray):
+            return (isinstance(a, np.ndarray) and isinstance(b, np.ndarray) and a.dtype == b.dtype and a.shape == b.shape and bool((a == b).all()))
     if isinstance(a, dict) or isinstance(b, dict):
         if not (isinstance(a, dict) and isinstance(b, dict)) or len(a) != len(b):
             return False
